@@ -42,7 +42,14 @@ def gen_case(rng, idx, tier):
             ticks[o] = {"old": 0, "missing": None, "ok": 3}.get(mode, rng.choice([None, 0, 1, 2, 3]))
         t["spec"] = "echo %s\n" % t["name"]
     names = [t["name"] for t in dag["targets"]]
+    links = {}
+    for t in dag["targets"]:
+        for o in t["outs"]:
+            if rng.random() < 0.12:
+                links[o] = rng.choice(["data", "dangling"])
     return {
+        "links": links,
+        "leftover_tmp": rng.random() < 0.3,
         "dag": dag,
         "ticks": ticks,
         "patterns": scenario.gen_selection(rng, names) if rng.random() < 0.6 else [],
@@ -62,8 +69,18 @@ def run_case(case):
         if case["hashing"]:
             cfg["use_spec_hashes"] = True
         proj.write_config(cfg)
+        links = case.get("links", {})
         for f, tk in case["ticks"].items():
+            if f in links:
+                # the output is a symbolic link: to (old) data kept outside the project, or to nothing yet
+                if links[f] == "data":
+                    proj.set_file(f, 0, content="linked payload of %s\n" % f, symlink=True, link_tick=3)
+                else:
+                    os.makedirs(os.path.join(proj.base, "outside"), exist_ok=True)  # the directory exists, the data does not
+                    os.symlink(os.path.join(proj.base, "outside", "not_yet_" + f), proj.path(f))
+                continue
             proj.set_file(f, tk, content=("payload of %s\n" % f) if tk is not None else None)
+        link_paths = {model.resolve(root, f) for f in links}
         proj.write("unrelated.txt", "keep\n")
         os.utime(proj.path("unrelated.txt"), ns=(gen.BASE_T * 10**9, gen.BASE_T * 10**9))
         recs = {}
@@ -76,6 +93,11 @@ def run_case(case):
         os.makedirs(os.path.join(root, ".gwf", "logs"), exist_ok=True)
         if recs:
             proj.write_state("spec-hashes.json", recs)
+        if case.get("leftover_tmp"):
+            # an earlier gwf command was killed while writing its state: the temporary files are still there
+            for n_ in ("spec-hashes.json.tmp", "slurm-backend-tracked.json.tmp"):
+                with open(os.path.join(root, ".gwf", n_), "w") as fh:
+                    fh.write('{"half written')
         mts = [dict(t, wd=root) for t in ts]
         by = {t["name"]: t for t in mts}
         deps, _, _ = model.dependency_relation(mts)
@@ -109,15 +131,23 @@ def run_case(case):
         changed_fs = {os.path.join(root, p) for p in d["added"] + d["touched"] + d["modified"] if not p.startswith(".gwf/")}
         if touched - want_paths or changed_fs - want_paths:
             res.violation("touched-outside-cone", "touch touched %s which are not outputs of the selected cone" % sorted(os.path.relpath(p, root) for p in (touched | changed_fs) - want_paths), **ctx)
-        if want_paths - changed_fs:
-            res.violation("not-touched", "outputs of the cone not touched/created: %s" % sorted(os.path.relpath(p, root) for p in want_paths - changed_fs), **ctx)
-        if d["removed"]:
-            res.violation("touch-removed", "touch removed %s" % d["removed"], **ctx)
+        if (want_paths - link_paths) - changed_fs:
+            res.violation("not-touched", "outputs of the cone not touched/created: %s" % sorted(os.path.relpath(p, root) for p in (want_paths - link_paths) - changed_fs), **ctx)
+        for lp in sorted(link_paths & want_paths):
+            # through the link: the data must exist now and keep its content
+            res.mon("linked_outputs_checked")
+            if not os.path.exists(lp):
+                res.violation("not-touched", "output %s is a (dangling) symbolic link and still has no data after touch" % os.path.relpath(lp, root), **ctx)
+            elif links[os.path.relpath(lp, root)] == "data" and open(lp).read() != "linked payload of %s\n" % os.path.relpath(lp, root):
+                res.violation("content-changed", "touch changed the data behind the symbolic link %s" % os.path.relpath(lp, root), **ctx)
+        removed_ = [p for p in d["removed"] if not p.startswith(".gwf/")]
+        if removed_:
+            res.violation("touch-removed", "touch removed %s" % removed_, **ctx)
         for p in d["modified"]:
             if not p.startswith(".gwf/"):
                 res.violation("content-changed", "touch changed the content of %s" % p, **ctx)
         for p in d["added"]:
-            if not p.startswith(".gwf/") and after[p][0] != 0:
+            if not p.startswith(".gwf/") and os.path.join(root, p) not in link_paths and after[p][0] != 0:
                 res.violation("created-nonempty", "touch created %s with %d bytes" % (p, after[p][0]), **ctx)
         res.mon("contents_compared", len(before))
         # --- order along edges
@@ -134,7 +164,10 @@ def run_case(case):
                         if po in last and pd in last and last[po] < last[pd]:
                             res.violation("touch-order", "output %s of %s was last touched before output %s of its dependency %s" % (os.path.relpath(po, root), t, os.path.relpath(pd, root), dname), order=[os.path.relpath(x, root) for x in order], **ctx)
                         ro, rd = os.path.relpath(po, root), os.path.relpath(pd, root)
-                        if ro in after and rd in after and after[ro][1] < after[rd][1]:
+                        if po in link_paths or pd in link_paths:
+                            if os.path.exists(po) and os.path.exists(pd) and os.stat(po).st_mtime_ns < os.stat(pd).st_mtime_ns:
+                                res.violation("touch-order", "mtime (through the symbolic link) of %s (%s) is older than that of %s of its dependency %s" % (ro, t, rd, dname), **ctx)
+                        elif ro in after and rd in after and after[ro][1] < after[rd][1]:
                             res.violation("touch-order", "mtime of %s (%s) is older than that of %s of its dependency %s" % (ro, t, rd, dname), **ctx)
         # --- status afterwards
         r2 = cli.gwf(root, ["status"], env)
